@@ -247,6 +247,7 @@ func c09(w *World) {
 	switch pattern {
 	case "steady":
 		periods := 20 + w.W.Draw(281)
+		prevShort, shortThenFull := false, false
 		steadyOnly := -1 // -1: mixed types; otherwise one message type only ("any type" means every type on its own)
 		if w.W.Chance(1, 2) {
 			steadyOnly = w.W.Draw(5)
@@ -255,9 +256,18 @@ func c09(w *World) {
 		for i := 0; i < periods && !sc.P.EOF; i++ {
 			// something at least every N seconds, of any type
 			gap := time.Duration(n)*time.Second - time.Duration(w.W.Draw(n*500))*time.Millisecond
-			if w.W.Chance(1, 4) {
+			switch w.W.Draw(6) {
+			case 0, 1:
+				gap = time.Duration(n) * time.Second
+			case 2:
+				// two messages close together, then the full N: the deadline counts from the later one
+				gap = time.Duration(1+w.W.Draw(int(T/5/time.Millisecond))) * time.Millisecond
+				shortThenFull = true
+			}
+			if prevShort {
 				gap = time.Duration(n) * time.Second
 			}
+			prevShort, shortThenFull = shortThenFull, false
 			simrt.Sleep(gap)
 			kind := w.W.Draw(5)
 			if steadyOnly >= 0 {
@@ -297,6 +307,19 @@ func c09(w *World) {
 				w.Violate("probe-too-early", fmt.Sprintf("N=%d", n), fmt.Sprintf("TestRequest at %s, before %v of silence had passed", stamp(probes()[0].At, w), T))
 			}
 			w.Probe("inbound_1ms_before_first_deadline")
+		}
+		if w.W.Chance(1, 3) {
+			// a short burst right before the silence: the first period counts from its last message
+			for k := 0; k < 1+w.W.Draw(3); k++ {
+				simrt.Sleep(time.Duration(1+w.W.Draw(int(T/5/time.Millisecond))) * time.Millisecond)
+				sc.P.Send(sc.Msg("0"))
+				sc.Settle()
+				lastIn = time.Now()
+			}
+			if len(probes()) != 0 {
+				w.Violate("probe-too-early", fmt.Sprintf("N=%d", n), "TestRequest sent while the peer was talking")
+			}
+			w.Probe("burst_before_silence")
 		}
 		simrt.Sleep(lastIn.Add(T + slack + time.Millisecond).Sub(time.Now()))
 		sc.Settle()
